@@ -48,6 +48,10 @@ func checkC12(c *Ctx) {
 	ruleMatcherKeys(c, "C12.f")
 	ruleMirrorGuards(c, "C12.g")
 	ruleCommandIdentity(c, "C12.h")
+	c.rule("C12.i", "the encoder lock taken by beginCommand is released on every path (a refused command must not block the others)", 35)
+	ruleCommandEncoderPairing(c, "C12.i")
+	c.rule("C12.j", "the pending-command and continuation-request queues stay in issue order (no in-place element overwrite)", 2)
+	ruleOrderedQueues(c, "C12.j")
 }
 
 var mirrorTypes = map[string]bool{"SelectedMailbox": true, "SelectData": true, "UnilateralDataMailbox": true}
